@@ -294,6 +294,8 @@ class Pair:
             kinds = sorted({str(p[0]) for p in probs})
             if op['op'] == 'mkdir' and got == 'ENOSPC' and kinds == ['lost cluster']:
                 s = 'fs.vol/mkdir-enospc-leak'
+            elif op['op'] == 'mkdir' and got not in ('ok', 'ENOSPC') and kinds == ['lost cluster']:
+                s = 'fs.vol/mkdir-error-leak'
             else:
                 s = f'{sig}/structural:{kinds[0]}'
             ctx.violation(s, f'structural check fails after {jop} ({got}): {probs[:4]}', self.replay())
@@ -386,6 +388,9 @@ def scripts(g):
     yield 'root-full', (
         [T(f'/F{k}') for k in range(40)] + [T('/one more'), UN('/F3'), UN('/F4'), T('/a long name that needs three slots'), T('/G1'), T('/G2'),
                                             UN('/F7'), R('/F8', '/F8 renamed to a long name'), R('/F9', '/F9B'), T('/G3'), T('/G4'), T('/G5'), MK('/NEWDIR')])
+    yield 'mkdir-name-too-long', [
+        MK('/d'), dict(op='touch', path='/' + 'y' * 300, _expect='ValueError'), dict(op='mkdir', path='/d/' + 'x' * 300, _expect='ValueError'), T('/d/after'),
+        dict(op='mkdir', path='/d/a\ud800b', _expect='UnicodeEncodeError'), dict(op='mkdir', path='/' + 'z' * 256, _expect='ValueError'), MK('/d/e')]
     yield 'alias-equals-upper-cased-long-name', [
         W('/straß~2', cs + 88), W('/strassenbahn', 2 * cs + 1), T('/strassenbahn'), W('/straß~2', 3)]
 
